@@ -12,43 +12,63 @@ REG.macro("cfg_any", ["S", "s", "so", "sn", "imp_"],
           "new(RuleConfiguration, modules_to_check=S, modules_to_check_against=None, should=s, should_only=so, should_not=sn, except_present=False, import_=imp_, rule_object_anything=True)")
 REG.macro("single", ["a"], "setof(Filter, lambda f: f == a)")
 P = ["C12"]
+QO = ["Q_edge", "Q_else_f", "Q_else_r"]
 
 # (a) duality
 REG.lemma("C12_duality", params=dict(g="Graph", A="Bag[Filter]", B="Bag[Filter]", s="Bool", sn="Bool"),
           requires=["WF(g)"],
           ensures=["passes(g, cfg(A, B, s, False, sn, False, True)) == passes(g, cfg(B, A, s, False, sn, False, False))",
                    "fails(g, cfg(A, B, s, False, sn, False, True)) == fails(g, cfg(B, A, s, False, sn, False, False))"],
-          properties=P, note="'A should (not) import B' and 'B should (not) be imported by A' have the same outcome")
+          opaque=QO, cases=["s", "sn"], properties=P,
+          note="'A should (not) import B' and 'B should (not) be imported by A' have the same outcome")
 
-# (b) negation, one subject and one object (named or 'sub modules of'), both directions
-for imp_ in ("True", "False"):
-    REG.lemma(f"C12_negation_import_{imp_}", params=dict(g="Graph", a="Filter", b="Filter", e="Bool"),
-              requires=["WF(g)", "not is_regex(a)", "not is_regex(b)",
-                        f"not fv_raises(g, umr_of(g, mr_eff(cfg(single(a), single(b), True, False, False, e, {imp_}))), b_eff(cfg(single(a), single(b), True, False, False, e, {imp_})))",
-                        f"not fv_raises(g, umr_of(g, mr_eff(cfg(single(a), single(b), False, False, True, e, {imp_}))), b_eff(cfg(single(a), single(b), False, False, True, e, {imp_})))"],
-              ensures=[f"passes(g, cfg(single(a), single(b), True, False, False, e, {imp_})) == fails(g, cfg(single(a), single(b), False, False, True, e, {imp_}))"],
-              properties=P, note="'should' passes exactly when 'should not' fails (likewise for the except forms)")
+# helper: a named (non-regex) filter converts to itself
+REG.lemma("conv_single", params=dict(g="Graph", a="Filter"), requires=["not is_regex(a)"],
+          ensures=["same_elements(conv(g, single(a)), single(a))"], properties=P + ["C01", "C11"])
+
+# (b) negation, one subject and one object (named or 'sub modules of'), both directions, with and without except
+REG.lemma("C12_negation", params=dict(g="Graph", a="Filter", b="Filter", e="Bool", imp_="Bool"),
+          requires=["WF(g)", "not is_regex(a)", "not is_regex(b)",
+                    "not fv_raises(g, umr_of(g, mr_eff(cfg(single(a), single(b), True, False, False, e, imp_))), b_eff(cfg(single(a), single(b), True, False, False, e, imp_)))",
+                    "not fv_raises(g, umr_of(g, mr_eff(cfg(single(a), single(b), False, False, True, e, imp_))), b_eff(cfg(single(a), single(b), False, False, True, e, imp_)))"],
+          ensures=["passes(g, cfg(single(a), single(b), True, False, False, e, imp_)) == fails(g, cfg(single(a), single(b), False, False, True, e, imp_))"],
+          use=["conv_single(g, a)", "conv_single(g, b)"], opaque=QO, cases=["e", "imp_"], properties=P,
+          note="'should' passes exactly when 'should not' fails (likewise for the two except forms)")
 
 # (c) decomposition of should_only
 REG.lemma("C12_decomposition", params=dict(g="Graph", S="Bag[Filter]", O="Bag[Filter]", imp_="Bool"),
           requires=["WF(g)"],
           ensures=["passes(g, cfg(S, O, False, True, False, False, imp_)) == (passes(g, cfg(S, O, True, False, False, False, imp_)) and passes(g, cfg(S, O, False, False, True, True, imp_)))",
                    "passes(g, cfg(S, O, False, True, False, True, imp_)) == (passes(g, cfg(S, O, True, False, False, True, imp_)) and passes(g, cfg(S, O, False, False, True, False, imp_)))"],
-          properties=P)
+          opaque=QO, cases=["imp_"], properties=P)
 
 # (d) the 'anything' alias for one subject
+REG.lemma("dedup_single", params=dict(a="Filter"), requires=["not name_anc(fid(a), fid(a))"],
+          ensures=["same_elements(dedup(single(a)), single(a))"], properties=P)
 REG.lemma("C12_alias_anything", params=dict(g="Graph", a="Filter", imp_="Bool"),
           requires=["WF(g)", "not name_anc(fid(a), fid(a))"],
           ensures=["passes(g, cfg_any(single(a), False, False, True, imp_)) == passes(g, cfg(single(a), single(a), False, False, True, True, imp_))",
                    "fails(g, cfg_any(single(a), False, False, True, imp_)) == fails(g, cfg(single(a), single(a), False, False, True, True, imp_))"],
-          properties=P, note="name_anc is the STRICT dotted-ancestor relation (irreflexive)")
+          use=["dedup_single(a)"], opaque=QO, cases=["imp_"], properties=P,
+          note="name_anc is the STRICT dotted-ancestor relation (irreflexive)")
 
 # (e) monotonicity in the import relation (same modules and hierarchy, more imports)
 REG.macro("same_hierarchy_more_imports", ["g1", "g2"],
           "forall(Node, lambda n: node(g1, n) == node(g2, n)) and forall(Node, Node, lambda a, b: inh(g1, a, b) == inh(g2, a, b)) "
           "and forall(Node, Node, lambda a, b: desc(g1, a, b) == desc(g2, a, b)) and forall(Node, Node, lambda a, b: implies(imp(g1, a, b), imp(g2, a, b)))")
+_MP = dict(g1="Graph", g2="Graph")
+REG.lemma("mono_Q_edge", params=_MP, requires=["same_hierarchy_more_imports(g1, g2)"],
+          ensures=["forall(Filter, Filter, lambda s, o: implies(Q_edge(g1, s, o), Q_edge(g2, s, o)))"], properties=P)
+REG.lemma("mono_Q_else_f", params=_MP, requires=["same_hierarchy_more_imports(g1, g2)"],
+          ensures=["forall(Filter, Bag[Filter], lambda s, O: implies(Q_else_f(g1, s, O), Q_else_f(g2, s, O)))"], properties=P)
+REG.lemma("mono_Q_else_r", params=_MP, requires=["same_hierarchy_more_imports(g1, g2)"],
+          ensures=["forall(Bag[Filter], Filter, lambda S, o: implies(Q_else_r(g1, S, o), Q_else_r(g2, S, o)))"], properties=P)
+REG.lemma("mono_conv", params=dict(g1="Graph", g2="Graph", F="Bag[Filter]"), requires=["forall(Node, lambda n: node(g1, n) == node(g2, n))"],
+          ensures=["same_elements(conv(g1, F), conv(g2, F))"], properties=P)
 REG.lemma("C12_monotone", params=dict(g1="Graph", g2="Graph", S="Bag[Filter]", O="Bag[Filter]", e="Bool", imp_="Bool"),
           requires=["WF(g1)", "WF(g2)", "same_hierarchy_more_imports(g1, g2)"],
           ensures=["implies(passes(g1, cfg(S, O, True, False, False, e, imp_)), passes(g2, cfg(S, O, True, False, False, e, imp_)))",
                    "implies(fails(g1, cfg(S, O, False, False, True, e, imp_)), fails(g2, cfg(S, O, False, False, True, e, imp_)))"],
-          properties=P, note="adding imports never breaks a passing 'should' nor repairs a failing 'should not'")
+          use=["mono_Q_edge(g1, g2)", "mono_Q_else_f(g1, g2)", "mono_Q_else_r(g1, g2)", "mono_conv(g1, g2, S)", "mono_conv(g1, g2, O)"],
+          opaque=QO, cases=["e", "imp_"], properties=P,
+          note="adding imports never breaks a passing 'should' nor repairs a failing 'should not'")
